@@ -32,6 +32,9 @@ EXPECT = {
     "m23_heap_ptr_data": ["C11"],
     "m24_union_is_first_when_equal_types": ["C12"],
     "m25_drop_fast_path_acquire_before_sub": ["C02"],
+    # need the re-entrant user code engine (a sibling owner released inside Clone + a panicking destructor)
+    "m26_offset_make_mut_write_back_on_return_only": ["C07", "C01"],
+    "m27_make_mut_detach_drop_inner_then_write": ["C08", "C09"],
 }
 
 SCRATCH = "/tmp/trisim-selftest"
